@@ -559,7 +559,17 @@ mod rel {
                     rels.0.insert(at, e);
                 }
             }
+            // a repeated entry (the multiset of entries has to survive)
+            if ne > 0 && r.below(4) == 0 { let e: Vec<Relation> = r.pick(&rels.0).clone(); let at = r.below(rels.0.len() + 1); rels.0.insert(at, e); }
             let substvar = r.below(4) == 0 || ne == 0;
+            // relations written with too little or with padding white space inside ("foo(>=1)[amd64]", "foo ( >= 1 ) [ amd64 ]")
+            let squeeze = r.below(4);
+            let inner = |a: &Relation| -> String {
+                let t = a.to_string();
+                match squeeze { 1 => t.replace(" (", "(").replace(") ", ")").replace(" [", "[").replace("] ", "]").replace(" <", "<"),
+                                2 => t.replace("(", "( ").replace("[", "[ ").replace("]", " ]").replace("<", "< ").replace(">", " >").replace("> =", ">=").replace("< <", "<<").replace(" > >", " >>").replace("< =", "<=").replace("> >", ">>"),
+                                _ => t }
+            };
             // messy text
             let mut t = String::new();
             t.push_str(*r.pick(wsp));
@@ -568,7 +578,7 @@ mod rel {
                 if i > 0 { t.push_str(*r.pick(wsp)); t.push(','); if r.below(6) == 0 { t.push_str(" ,"); } t.push_str(*r.pick(wsp)); }
                 for (j, a) in e.iter().enumerate() {
                     if j > 0 { t.push_str(*r.pick(wsp)); t.push('|'); t.push_str(*r.pick(wsp)); }
-                    t.push_str(&a.to_string());
+                    t.push_str(&inner(a));
                 }
             }
             if substvar { t.push_str(", ${misc:Depends}"); }
@@ -601,6 +611,11 @@ mod rel {
             if text.contains('\n') || text.contains("  ") || text.starts_with(' ') || text.ends_with(' ') || text.contains(" ,") || text.contains(",,") || text.ends_with(',') {
                 return Err(Fail { prop: "C13".into(), input: shown, what: "the normalised text is not single-line canonical".into(), expected: "entries joined by ', ', alternatives by ' | ', single spaces".into(), got: text });
             }
+            // ... and every relation is written in its canonical form 'name[:archqual] (op version) [archs] <profiles>'
+            for e in back.entries() { for x in e.relations() {
+                let lossy = Relation { name: x.name(), archqual: x.archqual(), version: x.version(), architectures: x.architectures().map(|a| a.collect()), profiles: x.profiles().collect() };
+                if x.to_string().trim() != lossy.to_string() { return Err(Fail { prop: "C13".into(), input: shown, what: "a relation of the normalised field is not written in canonical form (single spaces)".into(), expected: lossy.to_string(), got: x.to_string() }); }
+            } }
             // sorted: names do not decrease; relations of one name with the same operator are in Debian version order
             let key = |x: &debian_control::lossless::relations::Relation| (x.name(), x.version());
             let ordered = |a: &(String, Option<(VersionConstraint, debversion::Version)>), b: &(String, Option<(VersionConstraint, debversion::Version)>)| -> bool {
@@ -883,6 +898,50 @@ mod sat {
     }
 }
 // ---------------------------------------------------------------------------------------------------------
+// C18 (bounded stand-in for the value types outside the contracts: VCS locations, package-list entries, signed-by values,
+// the DEP-3 origin read through the typed patch header): printing a parsed canonical text returns that text - also for
+// equal values built separately - and parsing the text of a value returns an equal value
+mod codecs18 {
+    use super::Fail;
+    use std::str::FromStr;
+    fn fail(input: &str, what: &str, expected: String, got: String) -> Fail { Fail { prop: "C18".into(), input: input.into(), what: what.into(), expected, got } }
+    pub fn run() -> Result<usize, Fail> {
+        let mut n = 0;
+        // VCS locations: canonical text 'URL [-b BRANCH] [[SUBPATH]]'
+        for t in ["https://x.example/y.git", "https://x.example/y.git -b main", "https://x.example/y.git [sub/dir]", "https://x.example/y.git -b main [sub/dir]"] {
+            n += 1;
+            let v = debian_control::vcs::ParsedVcs::from_str(t).map_err(|e| fail(t, "ParsedVcs rejects a canonical text", "Ok".into(), format!("{:?}", e)))?;
+            if v.to_string() != t { return Err(fail(t, "ParsedVcs: printing a parsed canonical text does not return that text", t.into(), v.to_string())); }
+        }
+        // package-list entries with several extra pairs: the same text parsed again and again prints the same text
+        for t in ["foo deb net optional", "foo deb net optional arch=any", "foo deb net optional arch=any essential=no profile=!stage1"] {
+            for _ in 0..12 {
+                n += 1;
+                let v = debian_control::fields::PackageListEntry::from_str(t).map_err(|e| fail(t, "PackageListEntry rejects a canonical text", "Ok".into(), e))?;
+                if v.to_string() != t { return Err(fail(t, "PackageListEntry: printing a parsed canonical text does not return that text", t.into(), v.to_string())); }
+            }
+        }
+        // signed-by values: the text of a value parses to an equal value
+        for v in [apt_sources::signature::Signature::KeyBlock("-----BEGIN PGP PUBLIC KEY BLOCK-----\n.\nmDMEY\n-----END PGP PUBLIC KEY BLOCK-----".to_string()), apt_sources::signature::Signature::KeyPath("/usr/share/keyrings/k.gpg".into())] {
+            n += 1;
+            let t = v.to_string();
+            match apt_sources::signature::Signature::from_str(&t) { Ok(w) if w == v => {}, other => return Err(fail(&t, "Signature: parsing the text of a value does not return an equal value", format!("{:?}", v), format!("{:?}", other))) }
+        }
+        // the DEP-3 origin with its category prefix, read through the typed patch header
+        use dep3::{Origin, OriginCategory};
+        for (text, want) in [("upstream, commit:abc", (Some(OriginCategory::Upstream), Origin::Commit("abc".to_string()))),
+                             ("backport, https://x.example/1", (Some(OriginCategory::Backport), Origin::Other("https://x.example/1".to_string()))),
+                             ("commit:abc", (None, Origin::Commit("abc".to_string()))),
+                             ("https://x.example/1", (None, Origin::Other("https://x.example/1".to_string())))] {
+            n += 1;
+            let doc = format!("Description: d\nOrigin: {}\n", text);
+            let h = dep3::lossy::PatchHeader::from_str(&doc).map_err(|e| fail(&doc, "lossy PatchHeader rejects a well-formed header", "Ok".into(), e))?;
+            if h.origin != Some(want.clone()) { return Err(fail(&doc, "the Origin field is not read as its category and value", format!("{:?}", want), format!("{:?}", h.origin))); }
+        }
+        Ok(n)
+    }
+}
+// ---------------------------------------------------------------------------------------------------------
 // C17: copyright file lookup, against the statement's own reading of the DEP-5 globs
 mod cpr {
     use super::{Fail, Rng};
@@ -1118,6 +1177,7 @@ mod anytext {
                 // Anything else that differs is reported.
                 let outer = |c: char| c == ',' || c == ' ' || c == '\t' || c == '\r' || c == '\n';
                 for (name, got) in [("Entry::from_str", e), ("Relation::from_str", rel)] {
+                    if got.is_some() && eb != 0 { return Err(fail("C09", s, &format!("{} accepts a text for which the tolerant reader (substitution variables disallowed) reports errors", name), "Err".into(), "Ok".into())); }
                     if let Some(t) = got {
                         if t != s {
                             let around = s.find(t.as_str()).map(|i| s[..i].chars().all(outer) && s[i + t.len()..].chars().all(outer)).unwrap_or(false);
@@ -1134,6 +1194,7 @@ mod anytext {
         let mut r = Rng(crate::seed_mix(0xBB67AE8584CAA73B));
         let mut inputs = all_strings(REL_ALPHA, 3);
         inputs.extend(random_strings(&mut r, REL_ALPHA, 20000 * crate::scale(), 14));
+        for t in ["foo, ${misc:Depends}", "${shlibs:Depends}, foo | bar", "${a}", "a | ${a}", "foo (>= 1), ${x:Y}, bar", "${a} "] { inputs.push(t.to_string()); }
         for s in &inputs { check_c09(s)?; }
         Ok(inputs.len())
     }
@@ -1655,6 +1716,10 @@ fn main() {
     }
     if prop == "C12" {
         match sat::run() { Ok(n) => { eprintln!("vwit C12: no failing input among {} field / installed-set pairs", n); return; } Err(f) => f.print_and_exit() }
+    }
+    if prop == "C18" {
+        std::panic::set_hook(Box::new(|_| {}));
+        match codecs18::run() { Ok(n) => { eprintln!("vwit C18: no failing input among {} texts and values", n); return; } Err(f) => f.print_and_exit() }
     }
     if prop == "C17" {
         std::panic::set_hook(Box::new(|_| {}));
